@@ -53,8 +53,8 @@ fn c18_2a_timeout_handler() {
     timeout_handler(ev.timer_data());
     assert!(ev.timer.borrow().is_none(), "[C18.2-slot-cleared] the fired timer is taken out of the socket's timer slot");
     if present {
-        assert!(resumptions() == 1 && sup::count(sup::E_RUN) == 1, "[C18.2-timeout-resumes-once] the timed-out coroutine is resumed exactly once");
-        let r = unsafe { sup::RAN.as_ref().unwrap() };
+        assert!(resumptions() == 1, "[C18.2-timeout-resumes-once] the timed-out coroutine is resumed exactly once");
+        let r = sup::resumed_ref().unwrap();
         assert!(r.shim_id() == id && r.shim_peek_para().map(|e| e.kind()) == Some(std::io::ErrorKind::TimedOut), "[C18.2-timedout-result] the coroutine is resumed with the TimedOut result");
         assert!(ev.co.take().is_none(), "[C18.2-taken] the coroutine was taken out of the I/O slot");
     } else {
